@@ -150,7 +150,37 @@ impl Gen<'_> {
 			3 if ty == Ty::Num => {
 				// sharing: the same memoised position is read several times
 				self.note("share");
-				match self.rng.below(4) {
+				match self.rng.below(7) {
+					4 => {
+						// one array literal read through a lazy view AND by index
+						let n = 1 + self.rng.below(3);
+						let es: Vec<String> = (0..n).map(|_| { let e = self.expr(Ty::Num, d); self.traced(e) }).collect();
+						let x = self.fresh("sv");
+						let view = match self.rng.below(4) {
+							0 => format!("[v for v in {x}]"),
+							1 => format!("({x} + [0])"),
+							2 => format!("std.map(function(v) v, {x})"),
+							_ => format!("{x}[0:]"),
+						};
+						let first = self.rng.chance(1, 2);
+						return if first {
+							format!("(local {x} = [{}]; std.foldl(function(acc, v) acc + v, {view}, 0) + {x}[0])", es.join(", "))
+						} else {
+							format!("(local {x} = [{}]; {x}[0] + std.foldl(function(acc, v) acc + v, {view}, 0))", es.join(", "))
+						};
+					}
+					5 | 6 => {
+						// a removed key must not be evaluated, also when it is looked up again
+						let o = self.obj_lit(d, false);
+						let k = *self.rng.pick(&["a", "b", "h"]);
+						let x = self.fresh("sr");
+						let use_ = match self.rng.below(3) {
+							0 => format!("(if std.objectHasAll({x}, \"{k}\") then 1 else 0) + std.length({x})"),
+							1 => format!("(({x}) {{ {k}+: 10 }}).{k}"),
+							_ => format!("std.length(std.objectFieldsAll({x} + {{ a+: 1 }}))"),
+						};
+						return format!("(local {x} = std.objectRemoveKey({o}, \"{k}\"); {use_})");
+					}
 					0 => {
 						let o = self.obj_lit(d, false);
 						let x = self.fresh("so");
@@ -733,9 +763,116 @@ pub fn run_bind(opts: &Opts) {
 	w.finish(meta, &opts.out);
 }
 
+
+/// `c01t`: the other binders.  The same function is called (a) by a call expression, (b) through
+/// `apply_tla` (top-level arguments, all named), (c) through `PreparedFuncVal` (native callers:
+/// positional prefix + named rest).  Defaults refer to other parameters and to outer locals of the
+/// same names, so a binder that evaluates defaults in the wrong scope is visible.  The reference for
+/// all three is the definitional interpreter on the call expression.
+pub fn run_prepared(opts: &Opts) {
+	use jrsonnet_evaluator::{
+		function::{CallLocation, PreparedFuncVal},
+		tla::TlaArg,
+		IStr, Thunk,
+	};
+	let env = new_env();
+	let _g = env.state.enter();
+	let mut w = CaseWriter::new(&opts.out);
+	let mut rng = Rng::new(opts.seed ^ 0x7A);
+	let n = if opts.thorough() { 20000 } else { 2500 };
+	let names = ["a", "b", "c"];
+	let mut kinds: BTreeMap<String, usize> = BTreeMap::new();
+	for _ in 0..n {
+		let np = 1 + rng.below(3);
+		// defaults: none / constant / another parameter + k / outer-shadowed name
+		let mut ps: Vec<String> = Vec::new();
+		let mut has_default: Vec<bool> = Vec::new();
+		for i in 0..np {
+			let d = match rng.below(5) {
+				0 | 1 => None,
+				2 => Some(format!("{}", 300 + i)),
+				3 => Some(format!("{} + {}", names[rng.below(np)], 1 + rng.below(3))),
+				_ => Some(format!("{} * 2 + {}", names[rng.below(3)], names[rng.below(np)])),
+			};
+			has_default.push(d.is_some());
+			ps.push(d.map_or(names[i].to_string(), |d| format!("{} = {d}", names[i])));
+		}
+		let body: Vec<&str> = names[..np].to_vec();
+		let func = format!(
+			"local a = 50, b = 60, c = 70; function({}) [{}]",
+			ps.join(", "),
+			body.join(", ")
+		);
+		// which parameters are passed, and how many of them positionally (for path c)
+		let npos = rng.below(np + 1);
+		let mut named_idx: Vec<usize> = (npos..np).filter(|i| !has_default[*i] || rng.chance(1, 2)).collect();
+		if rng.chance(1, 12) && !named_idx.is_empty() {
+			named_idx.pop(); // sometimes leave a parameter unbound
+		}
+		for i in (1..named_idx.len()).rev() {
+			let j = rng.below(i + 1);
+			named_idx.swap(i, j);
+		}
+		let val = |i: usize| 100 + i as i32;
+		let emit = |w: &mut CaseWriter, kinds: &mut BTreeMap<String, usize>, path: &str, call_src: String, ans: Value| {
+			let source = Source::new_virtual("<c01t>".into(), call_src.as_str().into());
+			let ast = match jrsonnet_ir_parser::parse(&call_src, &jrsonnet_ir_parser::ParserSettings { source }) {
+				Ok(e) => astjson::expr(&e),
+				Err(_) => json!(["unsupported", "syntax error"]),
+			};
+			let key = format!("{path}:{}", ans.get("err").and_then(Value::as_str).unwrap_or(if ans.get("ok").is_some() { "ok" } else { "panic" }));
+			*kinds.entry(key).or_default() += 1;
+			w.case(json!({"op":"eval.run","path":path,"src":call_src,"ast":ast,"fuel":300,"size":call_src.len()}), ans);
+		};
+		// (a) call expression: positional prefix + named rest
+		let mut args: Vec<String> = (0..npos).map(|i| val(i).to_string()).collect();
+		for i in &named_idx {
+			args.push(format!("{} = {}", names[*i], val(*i)));
+		}
+		let call_src = format!("({func})({})", args.join(", "));
+		let ans = run_program(&env, |s| s.evaluate_snippet("<c01t>".to_owned(), call_src.clone()));
+		emit(&mut w, &mut kinds, "expr", call_src.clone(), ans);
+		// (c) PreparedFuncVal with the same split
+		let ans = run_program(&env, |s| {
+			let f = s.evaluate_snippet("<c01t>".to_owned(), func.clone())?;
+			let jrsonnet_evaluator::Val::Func(fv) = f else { unreachable!() };
+			let nn: Vec<IStr> = named_idx.iter().map(|i| IStr::from(names[*i])).collect();
+			let p = PreparedFuncVal::new(fv, npos, &nn)?;
+			let pos: Vec<Thunk<jrsonnet_evaluator::Val>> =
+				(0..npos).map(|i| Thunk::evaluated(jrsonnet_evaluator::Val::Num(val(i).into()))).collect();
+			let nam: Vec<Thunk<jrsonnet_evaluator::Val>> =
+				named_idx.iter().map(|i| Thunk::evaluated(jrsonnet_evaluator::Val::Num(val(*i).into()))).collect();
+			p.call(CallLocation::native(), &pos, &nam)
+		});
+		emit(&mut w, &mut kinds, "prepared", call_src, ans);
+		// (b) apply_tla: everything by name (positional prefix passed by name too)
+		let all_named: Vec<usize> = (0..npos).chain(named_idx.iter().copied()).collect();
+		let tla_src = format!(
+			"({func})({})",
+			all_named.iter().map(|i| format!("{} = {}", names[*i], val(*i))).collect::<Vec<_>>().join(", ")
+		);
+		let ans = run_program(&env, |s| {
+			let f = s.evaluate_snippet("<c01t>".to_owned(), func.clone())?;
+			let mut m: std::collections::HashMap<IStr, TlaArg> = std::collections::HashMap::new();
+			for i in &all_named {
+				m.insert(IStr::from(names[*i]), TlaArg::Val(jrsonnet_evaluator::Val::Num(val(*i).into())));
+			}
+			jrsonnet_evaluator::apply_tla(&m, f)
+		});
+		emit(&mut w, &mut kinds, "tla", tla_src, ans);
+	}
+	let meta = json!({
+		"engine":"c01t","cases":w.n,"path_outcome_hist":kinds,
+		"rule":"functions of 1-3 parameters whose defaults are constants, other parameters or outer locals shadowed by parameters; called by a call expression, through PreparedFuncVal (positional prefix + shuffled named rest) and through apply_tla (all named); each outcome vs the definitional interpreter on the equivalent call expression"
+	});
+	w.finish(meta, &opts.out);
+}
+
 pub fn run(opts: &Opts) {
 	if opts.engine == "c01b" {
 		run_bind(opts);
+	} else if opts.engine == "c01t" {
+		run_prepared(opts);
 	} else {
 		run_engine(opts, false);
 	}
